@@ -6,6 +6,7 @@ import (
 	"bufio"
 	"crypto/tls"
 	"encoding/json"
+	"errors"
 	"fmt"
 	"math/rand"
 	"net"
@@ -81,6 +82,7 @@ type req5 struct {
 type conn5 struct {
 	T     string `json:"t"`              // label: the CONNECT exchange id is T; default tunnel host is T.vh.test
 	Auth  string `json:"auth,omitempty"` // literal CONNECT authority as the client sends it ("" = T.vh.test:443)
+	Frag  int    `json:"frag,omitempty"` // the client's first TLS record reaches the proxy in two pieces: Frag bytes, then (once read) the rest
 	Inner string `json:"inner"`          // tls | clear
 	// Pre: complete exchanges on the same client connection before the CONNECT:
 	// "get" = a proxied absolute-form GET, "connect-clear" = a CONNECT to
@@ -90,11 +92,14 @@ type conn5 struct {
 }
 
 type c05Case struct {
-	Kind      string  `json:"kind"`
-	Idx       int     `json:"idx"`
-	Stream    string  `json:"stream"`
-	Listener  string  `json:"listener"` // plain | shaped | tls
-	Transport string  `json:"transport"`
+	Kind      string `json:"kind"`
+	Idx       int    `json:"idx"`
+	Stream    string `json:"stream"`
+	Listener  string `json:"listener"` // plain | shaped | tls
+	Transport string `json:"transport"`
+	// shaped listener settings (0 = library defaults): SetLatency, SetRead/WriteBitrate
+	LatencyMs int     `json:"latency_ms,omitempty"`
+	Bitrate   int64   `json:"bitrate,omitempty"`
 	Conns     []conn5 `json:"conns"`
 }
 
@@ -179,6 +184,11 @@ func genCase(rng *rand.Rand, stream string, idx int, race bool) c05Case {
 	if !race && rng.Intn(4) == 0 {
 		c.Transport = "tcp"
 	}
+	if c.Listener == "shaped" && rng.Intn(2) == 0 {
+		// a shaped listener as deployments configure it: some latency, capped bandwidth
+		c.LatencyMs = 1 + rng.Intn(3)
+		c.Bitrate = []int64{80e6, 400e6}[rng.Intn(2)]
+	}
 	n := 1 + rng.Intn(3)
 	if race {
 		n = 3 + rng.Intn(4)
@@ -203,6 +213,9 @@ func genCase(rng *rand.Rand, stream string, idx int, race bool) c05Case {
 		}
 		if slow {
 			cs.Inner = "tls"
+		}
+		if cs.Inner == "tls" && rng.Intn(2) == 0 {
+			cs.Frag = []int{1, 2, 3, 5}[rng.Intn(4)]
 		}
 		// how the client spells the CONNECT authority (not on the transparent listener)
 		if c.Listener != "tls" {
@@ -362,6 +375,7 @@ type robs struct {
 type connOut struct {
 	cl          *modx.Client
 	harness     string
+	hsErr       error // the client's (well-formed) TLS handshake was not completed by the proxy
 	connectResp *modx.Resp
 	cstate      *tls.ConnectionState
 	obs         []*robs
@@ -432,8 +446,14 @@ func runConn(g *modx.Rig, c c05Case, cs conn5, out *connOut) {
 		out.connectResp = resp
 	}
 	if cs.Inner == "tls" {
-		if err := cl.StartTLS(ai.verify, g.CA.Pool); err != nil {
-			out.harness = "client TLS handshake: " + err.Error()
+		if err := cl.StartTLSFrag(ai.verify, g.CA.Pool, cs.Frag); err != nil {
+			var ce *tls.CertificateVerificationError
+			if modx.IsWatchdog(err) || errors.As(err, &ce) {
+				// certificate content is C06's subject; a watchdog is never a verdict
+				out.harness = "client TLS handshake: " + err.Error()
+			} else {
+				out.hsErr = err
+			}
 			return
 		}
 		st := cl.TLS.ConnectionState()
@@ -533,7 +553,8 @@ func idxBucket(i int) string {
 }
 
 func runCase(r *vh.Run, ca *modx.CA, c c05Case) {
-	g, err := modx.NewRig(ca, modx.RigOpts{MITM: true, Listener: c.Listener, Transport: c.Transport})
+	g, err := modx.NewRig(ca, modx.RigOpts{MITM: true, Listener: c.Listener, Transport: c.Transport,
+		ShapeLatency: time.Duration(c.LatencyMs) * time.Millisecond, ShapeBitrate: c.Bitrate})
 	if err != nil {
 		r.Inconclusive("rig: "+err.Error(), nil)
 		return
@@ -605,6 +626,19 @@ func runCase(r *vh.Run, ca *modx.CA, c c05Case) {
 		cs := c.Conns[ci]
 		if o.harness != "" {
 			r.Inconclusive(o.harness, map[string]interface{}{"connection": ci})
+			continue
+		}
+		if o.hsErr != nil {
+			// The client began the tunnel with a correct TLS handshake; the proxy did
+			// not complete it, so none of its requests can be decrypted, presented
+			// as secure or answered inside a TLS session.
+			fk := "whole-record"
+			if cs.Frag > 0 {
+				fk = "fragmented-record"
+			}
+			r.Eval(1)
+			r.Violation("C05:tunnel-handshake:"+fk, "the proxy did not complete the TLS handshake the client started inside the tunnel: "+o.hsErr.Error(),
+				map[string]interface{}{"connection": cs, "listener": c.Listener, "first_record_fragment_bytes": cs.Frag})
 			continue
 		}
 		ai := parseAuth(cs)
@@ -784,6 +818,12 @@ func runCase(r *vh.Run, ca *modx.CA, c c05Case) {
 			}
 			r.Class(fmt.Sprintf("history/pre-%s/%s/%s/idx%s", pre, lclass, cs.Inner, idxBucket(ro.idx)))
 			r.Class(fmt.Sprintf("pipeline/%s/%s/%s", ro.grp, cs.Inner, hj))
+			if cs.Inner == "tls" {
+				r.Class(fmt.Sprintf("hello-fragment-%d/%s/idx%s", cs.Frag, lclass, idxBucket(ro.idx)))
+			}
+			if c.Listener == "shaped" {
+				r.Class(fmt.Sprintf("shaped-latency-%dms/%s/%s", c.LatencyMs, cs.Inner, q.Form))
+			}
 			if q.DelayMs > 0 {
 				r.Class(fmt.Sprintf("slow-origin/%s/idx%s/%s", lclass, idxBucket(ro.idx), q.Form))
 				r.Count("slow_exchanges", 1)
